@@ -104,7 +104,8 @@ fn lift_inner_pat_idents(sig: &mut syn::Signature) -> ParamStatus {
             fn visit_pat_ident_mut(&mut self, i: &mut syn::PatIdent) {
                 let ident_string = i.ident.to_string();
 
-                match ident_string.chars().next() {
+                // A binding starts with a lower case letter, possibly after leading underscores (`_unused`)
+                match ident_string.trim_start_matches('_').chars().next() {
                     Some(char) if char.is_lowercase() => {
                         self.binding_pat_count += 1;
                         if self.first_binding_pat_ident.is_none() {
